@@ -128,11 +128,271 @@ theorem ctor_everywhere_func (ext : Ext) (fuel depth : Nat) (p : Proc) (funs : F
   simp [compileTops, compileList, compileSimples, compileSimple, hl, hg]
 
 theorem clone_same_flag (ext : Ext) (w : World) (k : Nat) (c : Ctx) (h : getCtx w k = some c) :
-    getCtx (hostStep ext w (.clone k)) w.ctxs.length = some c := by
+    getCtx (hostStep ext w (.clone k)) w.ctxs.length = some { c with trace := false } := by
   simp only [hostStep, h]
   simp [getCtx]
 
 example : (compileTops extDemo false compFuel 0 ⟨[⟨"libbloc_vmod.so", "vmod"⟩], [], []⟩ []
     [.func "F" [.typedDecl "vmod", .ctor "vmod"]]).res = .error .restrictedCtor := by decide
+
+/-! ### the host surface that can touch the trusted bit
+
+Every member of `Context` that writes `_flags` or builds a context from another one (context.h / context.cpp):
+the two public constructors (`_flags = 0`: `newCtx false`; the CLI then calls `trusted(true)`: `newCtx true` /
+`setTrusted`), `clone()` / `clone(fd, fd)` (`other->_flags = _flags`), `purge()` (does not mention `_flags`; resets
+`_trace`, `_parsing`), `trusted(bool)` (the ONLY writer; C++ only — `bloc_capi.h` has no function for it: a context
+becomes trusted only in `apps/main.cpp:174` / `apps/cli_parser.cpp:143`, the command-line interpreter), the private copy
+constructor used by `createChildShell` / `createChildRuntime` (`_flags(ctx._flags)`: the child of a function body or of
+a call carries a COPY — `compileList` passes the same `tr` to the body), `trace(bool)` (another member), `parsingBegin` /
+`parsingEnd` (`_parsing`, `_backed_symbols` only). The C API adds `bloc_create_context` (= `newCtx false`),
+`bloc_clone_context[2]`, `bloc_ctx_purge`, `bloc_free_context`, `bloc_ctx_enable_trace`, `bloc_unban_plugin`,
+`bloc_clear_plugin_permissions`, parse / execute. All of them are `HostOp`s. -/
+
+/-- **trusted_bit_invariant.** No host operation other than the explicit trust setter on that very context changes the
+trusted bit of a context that exists before and after it: not a grant or a revocation, not the creation, cloning,
+purging or freeing of this or any other context, not the trace switch, not the compilation of any text (accepted or
+rejected, with imports, includes, function definitions), not the run of any executable (with `trace` statements,
+calls, run-time errors). -/
+theorem trusted_bit_invariant (ext : Ext) (w : World) (op : HostOp) (k : Nat) (c c' : Ctx)
+    (h : getCtx w k = some c) (h' : getCtx (hostStep ext w op) k = some c') (hop : ∀ b, op ≠ .setTrusted k b) :
+    c'.trusted = c.trusted := by
+  have hk : k < w.ctxs.length := by
+    unfold getCtx at h
+    split at h
+    · rename_i c0 hk0; exact (List.getElem?_eq_some_iff.mp hk0).1
+    · cases h
+  have hget : ∀ {l : List (Option Ctx)}, l[k]? = some (some c) → True := fun _ => trivial
+  have hsame : ∀ {w' : World}, w'.ctxs = w.ctxs → getCtx w' k = some c' → c'.trusted = c.trusted := by
+    intro w' he hg
+    have : getCtx w' k = getCtx w k := by simp [getCtx, he]
+    rw [this, h] at hg; injection hg with hg; rw [hg]
+  have happ : ∀ {w' : World} (x : Option Ctx), w'.ctxs = w.ctxs ++ [x] → getCtx w' k = some c' → c'.trusted = c.trusted := by
+    intro w' x he hg
+    have : getCtx w' k = getCtx w k := by simp [getCtx, he, List.getElem?_append_left hk]
+    rw [this, h] at hg; injection hg with hg; rw [hg]
+  have hset : ∀ {w' : World} (j : Nat) (x : Ctx), w'.ctxs = w.ctxs.set j (some x) → (j = k → x.trusted = c.trusted) →
+      getCtx w' k = some c' → c'.trusted = c.trusted := by
+    intro w' j x he hx hg
+    by_cases hj : j = k
+    · subst hj
+      have : getCtx w' j = some x := by simp [getCtx, he, List.getElem?_set_self hk]
+      rw [this] at hg; injection hg with hg; rw [← hg]; exact hx rfl
+    · have : getCtx w' k = getCtx w k := by simp [getCtx, he, List.getElem?_set_ne hj]
+      rw [this, h] at hg; injection hg with hg; rw [hg]
+  cases op with
+  | unban n => exact hsame rfl h'
+  | clearPerms => exact hsame rfl h'
+  | newCtx tr => exact happ _ rfl h'
+  | setTrusted j b =>
+    simp only [hostStep] at h'
+    split at h'
+    · rename_i cj hj
+      refine hset j _ rfl ?_ h'
+      intro e; subst e; exact absurd rfl (hop b)
+    · exact hsame rfl h'
+  | setTrace j b =>
+    simp only [hostStep] at h'
+    split at h'
+    · rename_i cj hj
+      refine hset j _ rfl ?_ h'
+      intro e; subst e; rw [h] at hj; injection hj with hj; rw [hj]
+    · exact hsame rfl h'
+  | clone j =>
+    simp only [hostStep] at h'
+    split at h'
+    · exact happ _ rfl h'
+    · exact hsame rfl h'
+  | free j =>
+    simp only [hostStep] at h'
+    by_cases hj : j = k
+    · subst hj
+      have : getCtx { w with ctxs := w.ctxs.set j none } j = none := by simp [getCtx, List.getElem?_set_self hk]
+      rw [this] at h'; cases h'
+    · have : getCtx { w with ctxs := w.ctxs.set j none } k = getCtx w k := by simp [getCtx, List.getElem?_set_ne hj]
+      rw [this, h] at h'; injection h' with h'; rw [h']
+  | purge j =>
+    simp only [hostStep] at h'
+    split at h'
+    · rename_i cj hj
+      refine hset j _ rfl ?_ h'
+      intro e; subst e; rw [h] at hj; injection hj with hj; rw [hj]
+    · exact hsame rfl h'
+  | compile j prog =>
+    simp only [hostStep] at h'
+    split at h'
+    · rename_i cj hj
+      split at h'
+      · refine hset j _ rfl ?_ h'
+        intro e; subst e; rw [h] at hj; injection hj with hj; rw [hj]
+      · refine hset j _ rfl ?_ h'
+        intro e; subst e; rw [h] at hj; injection hj with hj; rw [hj]
+    · exact hsame rfl h'
+  | run x j =>
+    simp only [hostStep] at h'
+    split at h'
+    · rename_i ns cj hx hj
+      refine hset j _ rfl ?_ h'
+      intro e; subst e; rw [h] at hj; injection hj with hj; rw [hj]
+    · exact hsame rfl h'
+  | freeExe x => exact hsame rfl h'
+
+example : ∃ c c', getCtx (hostRun extDemo World.init demoOps) 0 = some c ∧
+    getCtx (hostStep extDemo (hostRun extDemo World.init demoOps) (.purge 0)) 0 = some c' ∧ c'.trusted = c.trusted :=
+  ⟨_, _, rfl, rfl, rfl⟩
+
+/-- **purge_keeps_untrusted** (and trusted): `Context::purge` / `bloc_ctx_purge` empties the context — objects,
+functions, trace mode — and leaves the trusted bit exactly as it was. -/
+theorem purge_keeps_untrusted (ext : Ext) (w : World) (k : Nat) (c : Ctx) (h : getCtx w k = some c) :
+    getCtx (hostStep ext w (.purge k)) k = some { trusted := c.trusted, objs := [], funs := [], trace := false } := by
+  have hk : k < w.ctxs.length := by
+    unfold getCtx at h
+    split at h
+    · rename_i c0 hk0; exact (List.getElem?_eq_some_iff.mp hk0).1
+    · cases h
+  simp only [hostStep, h]
+  simp [getCtx, List.getElem?_set_self hk]
+
+example : ((getCtx (hostRun extDemo World.init (demoOps ++ [.purge 0])) 0).map fun c => (c.trusted, c.objs, c.funs.length, c.trace))
+    = some (false, [], 0, false) := by decide
+
+/-- **clone_inherits_trust_exactly.** The clone gets the trusted bit of its origin at the moment of cloning (trusted
+origin → trusted clone, untrusted → untrusted), together with its objects and functions; afterwards the two bits are
+independent: setting the flag of the origin does not reach the clone, and setting the flag of the clone does not reach
+the origin. -/
+theorem clone_inherits_trust_exactly (ext : Ext) (w : World) (k : Nat) (c : Ctx) (h : getCtx w k = some c) (b : Bool) :
+    (∃ c', getCtx (hostStep ext w (.clone k)) w.ctxs.length = some c' ∧ c'.trusted = c.trusted ∧ c'.objs = c.objs ∧ c'.funs = c.funs) ∧
+    (∃ c', getCtx (hostStep ext (hostStep ext w (.clone k)) (.setTrusted k b)) w.ctxs.length = some c' ∧ c'.trusted = c.trusted) ∧
+    (∃ c', getCtx (hostStep ext (hostStep ext w (.clone k)) (.setTrusted w.ctxs.length b)) k = some c' ∧ c'.trusted = c.trusted) := by
+  have hk : k < w.ctxs.length := by
+    unfold getCtx at h
+    split at h
+    · rename_i c0 hk0; exact (List.getElem?_eq_some_iff.mp hk0).1
+    · cases h
+  have h1 := clone_same_flag ext w k c h
+  have hlen : (hostStep ext w (.clone k)).ctxs.length = w.ctxs.length + 1 := by simp [hostStep, h]
+  have hk1 : getCtx (hostStep ext w (.clone k)) k = some c := by
+    simp only [hostStep, h]
+    simpa [getCtx, List.getElem?_append_left hk] using h
+  refine ⟨⟨_, h1, rfl, rfl, rfl⟩, ?_, ?_⟩
+  · refine ⟨{ c with trace := false }, ?_, rfl⟩
+    have hne : k ≠ w.ctxs.length := by omega
+    generalize hostStep ext w (.clone k) = W at h1 hk1 hlen
+    simp only [hostStep, hk1]
+    unfold getCtx at h1 ⊢
+    simp only [List.getElem?_set_ne hne]
+    exact h1
+  · refine ⟨c, ?_, rfl⟩
+    have hne : w.ctxs.length ≠ k := by omega
+    generalize hostStep ext w (.clone k) = W at h1 hk1 hlen
+    simp only [hostStep, h1]
+    unfold getCtx at hk1 ⊢
+    simp only [List.getElem?_set_ne hne]
+    exact hk1
+
+example : (getCtx (hostRun extDemo World.init [.newCtx true, .clone 0, .setTrusted 0 false]) 1).map (·.trusted) = some true := by decide
+example : (getCtx (hostRun extDemo World.init [.newCtx false, .clone 0, .setTrusted 0 true]) 1).map (·.trusted) = some false := by decide
+
+/-- a history "of the C API": no context is created trusted and the C++-only setter is never called with `true` -/
+def capiOp : HostOp → Bool
+  | .newCtx true => false
+  | .setTrusted _ true => false
+  | _ => true
+
+/-- **Corollary (embedded use): untrusted for ever.** Along a history that never uses the two C++-only ways of making
+a context trusted, no context is ever trusted — whatever is purged, cloned, freed, compiled, run, traced, granted or
+revoked in between; hence (`untrusted_history_objects_granted`) every object in every context belongs to a module the
+host granted by name. -/
+theorem capi_history_never_trusted (ext : Ext) (ops : List HostOp) (hall : ops.all capiOp = true) :
+    (hostRun ext World.init ops).trustedSeen = false ∧
+    ∀ k c, getCtx (hostRun ext World.init ops) k = some c → c.trusted = false := by
+  suffices hgen : ∀ (ops : List HostOp) (w : World), ops.all capiOp = true → WorldOk w → w.trustedSeen = false →
+      (hostRun ext w ops).trustedSeen = false by
+    have hts := hgen ops World.init hall init_ok rfl
+    refine ⟨hts, ?_⟩
+    intro k c hc
+    have hw := hostRun_ok ext ops World.init init_ok
+    have := (hw.ctxs c (getCtx_mem hc)).flag
+    cases ht : c.trusted with
+    | false => rfl
+    | true => rw [hts] at this; exact absurd (this ht) (by simp)
+  intro ops
+  induction ops with
+  | nil => intro w _ _ h; exact h
+  | cons op rest ih =>
+    intro w hall hw hts
+    simp only [List.all_cons, Bool.and_eq_true] at hall
+    apply ih _ hall.2 (hostStep_ok ext w op hw)
+    cases op with
+    | newCtx tr => cases tr with
+      | true => simp [capiOp] at hall
+      | false => simp [hostStep, hts]
+    | setTrusted k b => cases b with
+      | true => simp [capiOp] at hall
+      | false => simp only [hostStep]; split <;> simp [hts]
+    | unban n => exact hts
+    | clearPerms => exact hts
+    | setTrace k b => simp only [hostStep]; split <;> exact hts
+    | clone k => simp only [hostStep]; split <;> exact hts
+    | free k => exact hts
+    | purge k => simp only [hostStep]; split <;> exact hts
+    | compile k prog =>
+      simp only [hostStep]
+      split
+      · split <;> exact hts
+      · exact hts
+    | run x k => simp only [hostStep]; split <;> exact hts
+    | freeExe x => exact hts
+
+/-- the extended alphabet at work: grant, compile a function and a call, revoke, purge, clone, trace, a run-time error,
+a rejected text, then run the executable compiled BEFORE the revocation in the clone: the object appears (the property
+speaks about the moment of compilation), nobody became trusted, and a fresh compile of the constructor is refused. -/
+def longOps : List HostOp :=
+  [.newCtx false, .unban "vmod",
+   .compile 0 [.simple (.importName "vmod"), .func "F" [.ctor "vmod"], .simple (.trace true), .simple (.call "F")],
+   .clearPerms, .clone 0, .purge 0, .setTrace 0 true, .compile 0 [.simple .raise], .run 1 0, .compile 1 [.simple .bad],
+   .run 0 1, .compile 1 [.simple (.ctor "vmod")], .free 0]
+
+example : longOps.all capiOp = true := by decide
+example : ((getCtx (hostRun extDemo World.init longOps) 1).map fun c => (c.trusted, c.objs, c.trace))
+    = some (false, [⟨"vmod", ⟨false, true⟩⟩], true) := by decide
+example : (hostRun extDemo World.init longOps).lastErr = some .restrictedCtor := by decide
+
+/-- **No script can flip a flag of its context except the trace mode**: a run leaves the trusted bit, and the function
+table, untouched — also when it ends in a run-time error. (The `RunSt` a run works on has no trusted field at all:
+`statement_trace.cpp` is the only statement that calls a flag setter of `Context`, and it calls `trace`.) -/
+theorem run_keeps_trust (ext : Ext) (w : World) (x k : Nat) (c : Ctx) (h : getCtx w k = some c) :
+    ∃ c', getCtx (hostStep ext w (.run x k)) k = some c' ∧ c'.trusted = c.trusted ∧ c'.funs = c.funs := by
+  have hk : k < w.ctxs.length := by
+    unfold getCtx at h
+    split at h
+    · rename_i c0 hk0; exact (List.getElem?_eq_some_iff.mp hk0).1
+    · cases h
+  simp only [hostStep, h]
+  split
+  · rename_i ns c0 hx hc
+    injection hc with hc; subst hc
+    refine ⟨⟨c.trusted, (runNodes c.funs runFuel ns ⟨c.objs, c.trace, false⟩).objs, c.funs,
+      (runNodes c.funs runFuel ns ⟨c.objs, c.trace, false⟩).trace⟩, ?_, rfl, rfl⟩
+    simp [getCtx, List.getElem?_set_self hk]
+  · exact ⟨c, h, rfl, rfl⟩
+
+example : ∃ c', getCtx (hostStep extDemo (hostRun extDemo World.init (demoOps.take 3)) (.run 0 0)) 0 = some c' ∧ c'.trusted = false :=
+  ⟨_, rfl, rfl⟩
+
+/-- **Revocation after compilation does not matter (and a later grant does not help).** The run of an executable —
+compiled at top level or reaching function bodies compiled earlier — never consults the grant list, the loaded modules
+or anybody's trusted bit: replace the process state by ANY other one and the run leaves exactly the same contexts. The
+permission is decided once, at compilation (`ctor_compiles_iff`), as the property says: "not revoked before compilation". -/
+theorem run_ignores_permissions (ext : Ext) (w : World) (p' : Proc) (x k : Nat) :
+    (hostStep ext { w with proc := p' } (.run x k)).ctxs = (hostStep ext w (.run x k)).ctxs ∧
+    (hostStep ext w (.run x k)).proc = w.proc := by
+  constructor
+  · simp only [hostStep, getExe, getCtx]
+    split <;> rfl
+  · simp only [hostStep]
+    split <;> rfl
+
+example : ((getCtx (hostRun extDemo World.init (demoOps.take 3 ++ [.clearPerms, .run 0 0])) 0).map fun c => c.objs)
+    = ((getCtx (hostRun extDemo World.init (demoOps.take 3 ++ [.run 0 0])) 0).map fun c => c.objs) := by decide
 
 end BlocV.Proofs.C16
